@@ -564,9 +564,13 @@ package validate
 //@   modifies *
 //@   ensures[C06] result != nil
 
+// NOTE: deliberately coarse (modifies *): with a pure contract the eight unrolled iterations of the slot loop in
+// (*SchemaValidator).Validate nest eight merge diamonds and VC generation takes minutes; forgetting the heap here
+// is a sound over-approximation that resets that nesting (the obligations that then depend on forgotten facts are
+// listed as unproven, not claimed).
 //@ func (*formatValidator).Applies
 //@   requires[C06] isnil(source) || ptrof(source) != nil
-//@   modifies *
+//@   pure
 //@ func (*schemaPropsValidator).validateDependencies
 //@   requires[C06] typeis(data, "map[string]interface{}")
 //@   modifies *
@@ -766,6 +770,11 @@ package validate
 //@   effects validation
 //@   maypanic
 //@   loop 1 invariant kind != 22 && kind == kind(data)
+//@   loop 2 unroll
+//@   loop 2 invariant liveRes(result) && !redeemed(s) && s.Options == old(s.Options) && s.Schema == old(s.Schema)
+//@   loop 2 invariant forall(k, 0, 8, implies(k > idx2, s.validators[k] == old(s.validators[k]) && !redeemed(ptrof(s.validators[k]))))
+//@   loop 2 invariant forall(k, 0, 8, implies(k <= idx2, ite(old(s.Options.recycleValidators), isnil(s.validators[k]), s.validators[k] == old(s.validators[k]))))
+//@   loop 2 invariant implies(idx2 < 1, readyProps(propsSlot(s)))
 //@   requires[C06] isJSON(data)
 //@   requires[C06,C04] s == nil || readySV(s)
 //@   ensures[C04,C11] s == nil || redeemed(s) == old(s.Options.recycleValidators)
@@ -798,6 +807,29 @@ package validate
 //@   ensures[C04,C11] redeemed(s) == old(s.Options.recycleValidators)
 //@   ensures[C04,C06] result != nil && okResult(result)
 //@   on_panic ensures[C11] redeemed(s) == old(s.Options.recycleValidators)
+
+
+// ---------------------------------------------------------------------------
+// Interface contract of valueValidator.Validate: what a parent may rely on when it runs a child through a slot of
+// interface type. Every implementation is checked to refine it (refines-pre / refines-post / refines-panic
+// obligations of the implementing method), so a dynamic call costs one contract application instead of a case
+// split over the ten implementing types.
+//@ pred recyc(v valueValidator) = ite(typeis(v, "*typeValidator"), unbox(v, "*typeValidator").Options.recycleValidators, ite(typeis(v, "*schemaPropsValidator"), unbox(v, "*schemaPropsValidator").Options.recycleValidators, ite(typeis(v, "*stringValidator"), unbox(v, "*stringValidator").Options.recycleValidators, ite(typeis(v, "*formatValidator"), unbox(v, "*formatValidator").Options.recycleValidators, ite(typeis(v, "*numberValidator"), unbox(v, "*numberValidator").Options.recycleValidators, ite(typeis(v, "*schemaSliceValidator"), unbox(v, "*schemaSliceValidator").Options.recycleValidators, ite(typeis(v, "*basicCommonValidator"), unbox(v, "*basicCommonValidator").Options.recycleValidators, ite(typeis(v, "*objectValidator"), unbox(v, "*objectValidator").Options.recycleValidators, ite(typeis(v, "*basicSliceValidator"), unbox(v, "*basicSliceValidator").Options.recycleValidators, ite(typeis(v, "*SchemaValidator"), unbox(v, "*SchemaValidator").Options.recycleValidators, false))))))))))
+//@ iface valueValidator.Validate
+//@   params recv, data
+//@   effects validation
+//@   maypanic
+//@   requires[C06] implies(typeis(recv, "*typeValidator"), jsonOrNum(data))
+//@   requires[C06] implies(typeis(recv, "*formatValidator"), typeis(data, "string"))
+//@   requires[C06] implies(typeis(recv, "*numberValidator"), knumeric(data))
+//@   requires[C06] implies(typeis(recv, "*schemaSliceValidator"), isJSON(data) && (data == nil || kind(data) == 23))
+//@   requires[C06] implies(typeis(recv, "*objectValidator"), isJSON(data))
+//@   requires[C06,C04] implies(typeis(recv, "*schemaPropsValidator"), jsonOrNum(data) && data != nil && readyProps(unbox(recv, "*schemaPropsValidator")))
+//@   requires[C06,C04] implies(typeis(recv, "*SchemaValidator"), isJSON(data) && (unbox(recv, "*SchemaValidator") == nil || readySV(unbox(recv, "*SchemaValidator"))))
+//@   ensures[C04,C11] ptrof(recv) == nil || redeemed(ptrof(recv)) == old(recyc(recv))
+//@   ensures[C04] result == nil || okResult(result)
+//@   ensures[C06] implies(!typeis(recv, "*stringValidator") && !typeis(recv, "*basicCommonValidator") && !typeis(recv, "*basicSliceValidator"), result != nil)
+//@   on_panic ensures[C11] ptrof(recv) == nil || redeemed(ptrof(recv)) == old(recyc(recv))
 
 // Option values: every option closure of the package writes only the options struct it is given; calls of Option
 // values rely on this (functype contract), and each closure is verified against it.
